@@ -19,9 +19,11 @@ one() {
   if ! (cd "$W" && go build ./... >/dev/null 2>&1); then echo -e "$name\tnocompile\t$desc"; rm -rf "$W"; return; fi
   if ! (cd "$W" && timeout 300 go test -count=1 "./$PKG/" >/dev/null 2>&1); then echo -e "$name\tkilled-by-existing-tests\t$desc"; rm -rf "$W"; return; fi
   res="SURVIVED"
+  mkdir -p "$W.tmp"
   for p in $PROPS; do
     o=$(cd /verif && DSIM_REPO="$W" DSIM_KEEP_EVIDENCE=1 DSIM_WORKERS=4 TMPDIR="$W.tmp" ./run.sh check "$p" quick 2>&1); rc=$?
-    if [ $rc = 1 ]; then rules=$(echo "$o" | grep -o "rule [A-Za-z0-9-]*" | sort -u | head -4 | tr '\n' ' '); res="caught-by-$p $rules"; break; fi
+    if [ $rc = 1 ] && echo "$o" | grep -q "^VIOLATION property=$p "; then rules=$(echo "$o" | grep -o "rule [A-Za-z0-9-]*" | sort -u | head -4 | tr '\n' ' '); res="caught-by-$p $rules"; break; fi
+    if [ $rc = 1 ]; then res="trouble-$p exit 1 without a VIOLATION line"; fi
     if [ $rc = 2 ]; then res="trouble-$p $(echo "$o" | tail -1 | cut -c1-100)"; fi
   done
   echo -e "$name\t$res\t$desc"
